@@ -165,7 +165,10 @@ def cases(tier):
     out.append(Case("defeated", case_defeated, {}, timeout_s=900))
     for sname in ("euclid", "diagonal", "gauss"):
         hs2 = CL.histories(2, False)
-        out.append(Case(f"{sname}/two_systems", run_group, {"sname": sname, "hists": hs2[:21], "convention": "plain", "two_systems": True}, timeout_s=1800))
+        step = 21 if sname == "euclid" else 4  # (position-dependent metrics: ~30 s per history, one worker per 4)
+        for ci, i in enumerate(range(0, 21, step)):
+            out.append(Case(f"{sname}/two_systems" + (f"/h{ci}" if step < 21 else ""), run_group,
+                            {"sname": sname, "hists": hs2[i:min(i + step, 21)], "convention": "plain", "two_systems": True}, timeout_s=1800))
     return out
 
 
